@@ -249,7 +249,7 @@ def family_usages():
 
 WORDS = ['a', 'b', 'v', 'w']
 OPT_WORDS = ['a', 'v', '-f', '-q', '-o', 'w']
-OPT_WORDS2 = ['a', 'v', '--force', '--out=w', '-qf', '--level', '-ow']
+OPT_WORDS2 = ['a', 'v', '--force', '--out=w', '-qf', '--level', '-ow', '-o=']
 
 
 def argvs_for(with_opts, tier):
